@@ -416,35 +416,22 @@ theorem c12_time_monitor (now : Int) (o : Oracles) (data : String) (doc : JVal) 
 
 /-! ### Bool, SpaceDelimitedArray, Display -/
 
-/-- `Bool.UnmarshalJSON` looks at the RAW text of the value: exactly `true` and `"true"` set it -/
-theorem c12_bool_exact_gen (now : Int) (bs : Bool) (data : String) :
-    GenCodec.BoolUnmarshalJSON now bs data = .ok (if (data == "true" || data == "\"true\"") = true then true else bs) := by
+/-- `Bool.UnmarshalJSON`: the literal `true`, or a JSON STRING whose decoded value is "true" (whatever its spelling - the
+    string is decoded by encoding/json, oracle `jsonString`), sets it; everything else, including every value that is not a
+    string, leaves it as it was; there is never an error -/
+theorem c12_bool_exact_gen (now : Int) (o : Oracles) (bs : Bool) (data : String) :
+    GenCodec.BoolUnmarshalJSON now o bs data =
+      .ok (if (data == "true") = true then true else
+        match o.jsonString data "" with
+        | .ok s => if (s == "true") = true then true else bs
+        | .error _ => bs) := by
   unfold GenCodec.BoolUnmarshalJSON
-  split <;> rfl
-
-/-- the monitor holds whenever the value is written in its canonical spelling (`lit` is the raw text of `doc`):
-    `true` / `false` for booleans, and the string "true" spelled `"true"` (PARTIAL: see `c12_bool_escape_witness`) -/
-theorem c12_bool_monitor_partial (now : Int) (lit : String) (doc : JVal)
-    (hb : ∀ b, doc = .bool b → lit = (if b then "true" else "false"))
-    (hs : ∀ s, doc = .str s → ((lit == "\"true\"") = (s == "true") ∧ (lit == "true") = false))
-    (ho : (∀ b, doc ≠ .bool b) → (∀ s, doc ≠ .str s) → (lit == "true") = false ∧ (lit == "\"true\"") = false) :
-    boolOKJ doc (outR (GenCodec.BoolUnmarshalJSON now false lit)) = true := by
-  rw [c12_bool_exact_gen]
-  cases doc with
-  | bool b => rw [hb b rfl]; cases b <;> decide
-  | str s =>
-    obtain ⟨h1, h2⟩ := hs s rfl
-    simp only [boolOKJ, outR, h1, h2, Bool.false_or]
-    cases hst : (s == "true") <;> simp
-  | null => obtain ⟨h1, h2⟩ := ho (by intro b h; cases h) (by intro s h; cases h); simp [boolOKJ, outR, h1, h2]
-  | num x => obtain ⟨h1, h2⟩ := ho (by intro b h; cases h) (by intro s h; cases h); simp [boolOKJ, outR, h1, h2]
-  | arr l => obtain ⟨h1, h2⟩ := ho (by intro b h; cases h) (by intro s h; cases h); simp [boolOKJ, outR, h1, h2]
-  | obj l => obtain ⟨h1, h2⟩ := ho (by intro b h; cases h) (by intro s h; cases h); simp [boolOKJ, outR, h1, h2]
-
-/-- FINDING (F-C12-bool-escape): the JSON string "true" written with an escape (`"\u0074rue"`) is a documented form
-    (boolean-as-string) but decodes to `false`: the monitor fails on the model's own answer -/
-theorem c12_bool_escape_witness :
-    boolOKJ (.str "true") (outR (GenCodec.BoolUnmarshalJSON 0 false "\"\\u0074rue\"")) = false := by decide
+  split
+  · rfl
+  · simp only []
+    cases o.jsonString data "" with
+    | error e => rfl
+    | ok s => simp only []; split <;> rfl
 
 /-- `SpaceDelimitedArray.UnmarshalJSON`: whatever string encoding/json decodes (`""` stays for `null`), split on single spaces -/
 theorem c12_space_exact (now : Int) (o : Oracles) (s0 : List String) (data : String) :
@@ -462,6 +449,41 @@ def jsonStringCoherent (o : Oracles) (data : String) (doc : JVal) : Prop :=
   | .str s => o.jsonString data "" = .ok s
   | .null => o.jsonString data "" = .ok ""
   | _ => ∃ e, o.jsonString data "" = .error e
+
+/-- the Bool monitor holds for EVERY document: `lit` is the raw text of `doc` (the only raw text that equals `true` is the
+    boolean true - `hraw`), and encoding/json decodes a string destination as `jsonStringCoherent` says.  In particular
+    the string "true" is accepted in every spelling (`"true"`, `"\u0074rue"`, …) -/
+theorem c12_bool_monitor (now : Int) (o : Oracles) (lit : String) (doc : JVal)
+    (hraw : (lit == "true") = (match doc with | .bool true => true | _ => false))
+    (hs : jsonStringCoherent o lit doc) :
+    boolOKJ doc (outR (GenCodec.BoolUnmarshalJSON now o false lit)) = true := by
+  rw [c12_bool_exact_gen]
+  cases doc with
+  | bool b =>
+    cases b with
+    | true => simp only at hraw; simp [hraw, boolOKJ, outR]
+    | false =>
+      obtain ⟨e, he⟩ := hs
+      simp only at hraw
+      simp [hraw, he, boolOKJ, outR]
+  | str s =>
+    simp only [jsonStringCoherent] at hs
+    simp only at hraw
+    simp only [hraw, hs, Bool.false_eq_true, if_false]
+    cases hst : (s == "true") <;> simp [boolOKJ, outR, hst]
+  | null =>
+    simp only [jsonStringCoherent] at hs
+    simp only at hraw
+    simp [hraw, hs, boolOKJ, outR]
+  | num x => obtain ⟨e, he⟩ := hs; simp only at hraw; simp [hraw, he, boolOKJ, outR]
+  | arr l => obtain ⟨e, he⟩ := hs; simp only at hraw; simp [hraw, he, boolOKJ, outR]
+  | obj l => obtain ⟨e, he⟩ := hs; simp only at hraw; simp [hraw, he, boolOKJ, outR]
+
+/-- non-vacuity: the escaped spelling (encoding/json decodes it to "true"), the plain literal, another string, a number -/
+example : outR (GenCodec.BoolUnmarshalJSON 0 { jsonString := fun _ _ => .ok "true" } false "\"\\u0074rue\"") = .val true := by decide
+example : outR (GenCodec.BoolUnmarshalJSON 0 {} false "true") = .val true := by decide
+example : outR (GenCodec.BoolUnmarshalJSON 0 { jsonString := fun _ _ => .ok "TRUE" } false "\"TRUE\"") = .val false := by decide
+example : outR (GenCodec.BoolUnmarshalJSON 0 { jsonString := fun _ _ => .error "json.UnmarshalTypeError" } false "1") = .val false := by decide
 
 theorem c12_space_monitor (now : Int) (o : Oracles) (data : String) (doc : JVal) (h : jsonStringCoherent o data doc) :
     spaceOK doc (outR (GenCodec.SpaceDelimitedArrayUnmarshalJSON now o [] data)) = true := by
